@@ -92,7 +92,7 @@ func doSelect(site int, hasDefault bool, cases []SelCase) int {
 	}
 	if managed && n > 1 {
 		for i := n - 1; i > 0; i-- {
-			j := s.Choose("sel", i+1)
+			j := s.seamChoose("sel", i+1)
 			order[i], order[j] = order[j], order[i]
 		}
 	}
@@ -139,7 +139,7 @@ func permFor(site int, n int) []int {
 			p[i] = i
 		}
 		for i := n - 1; i > 0; i-- {
-			j := s.Choose("map", i+1)
+			j := s.seamChoose("map", i+1)
 			p[i], p[j] = p[j], p[i]
 		}
 		return p
